@@ -32,13 +32,15 @@ CHECKS.update({
         technique="Lean 4 proof over a generic-order model + order-type-exhaustive structural correspondence",
         design_ref="6/C01"),
     "C05": dict(
-        text="Lean theorems C05.results_canonical (shape, any linear preorder), isEmpty_sound / isAny_sound, and "
-             "isEmpty_exact / isAny_exact for dense unbounded orders (the structural reading); the PEP 440 order is not "
-             "dense, the gap case is a recorded known finding. `==` exactness is checked differentially (result == canonical "
-             "object of the expected set, != a neighbour) on the order-type grid; the Lean-executable Canon predicate is "
-             "evaluated on every implementation result.",
-        technique="Lean 4 proof (shape + emptiness/universality) + exhaustive structural correspondence",
-        design_ref="6/C05"),
+        text="Lean: results_canonical (shape, any linear preorder); isEmpty_sound / isAny_sound; isEmpty_exact / isAny_exact on dense "
+             "unbounded orders; and for EVERY linear preorder, PEP 440 included, exactness over cuts (the positions at / just below / "
+             "just above a bound = membership read structurally from the bounds): eq_exact (`==` between canonical results holds "
+             "exactly when they denote the same cuts; from Spec.canon_unique, uniqueness of canonical forms), isEmpty_exact_cuts, "
+             "isAny_exact_cuts, eq_sound (equal objects admit the same versions). For versions alone completeness of is_empty "
+             "fails on PEP 440 gaps: recorded known finding G1. The model's `==`/Canon are compared with the implementation on the "
+             "order-type grid (result == canonical object of the expected set, != a neighbour) and on random expressions.",
+        technique="Lean 4 proof (canonical-form uniqueness over the cut extension of any order) + exhaustive structural correspondence",
+        design_ref="0.2, 6/C05"),
     "C06": dict(
         text="Token-level Lean model of rendering (_simplified_form/__str__ of range.py and union.py) and parsing "
              "(_from_pkg_specifier, from_specifierset, parse_version_specifier). Proved: empty/any round trip, every range "
@@ -174,13 +176,16 @@ CHECKS.update({
         technique="Lean 4 proof + differential correspondence of ==/hash",
         design_ref="6/C13"),
     "C14": dict(
-        text="Lean: markers - commutativity, associativity, idempotence, absorption, distributivity up to equivalence for every "
-             "fuel (corollaries of C02). Specifiers - every law proved as equality of admitted sets for all objects over any "
-             "linear preorder (C14.spec_*_mem); equality of the returned OBJECTS needs uniqueness of canonical forms, false for "
-             "the non-dense PEP 440 order (known finding G1), so it is decided by evaluating every law with the real == on "
-             "triples from the order-type grid and random reachable specifiers, and structurally against the model.",
-        technique="Lean 4 proof (laws up to meaning) + law evaluation on the implementation over exhaustive/random triples",
-        design_ref="6/C14"),
+        text="Lean: specifiers - all 15 laws (commutativity, associativity, idempotence, both absorptions, both distributivities, "
+             "involution, both De Morgan laws, a & ~a IS EmptySpecifier(), a | ~a is_any()) as equalities of the RETURNED OBJECTS "
+             "(model of Python ==) for canonical operands over any linear preorder of bounds (C14.obj_*), via uniqueness of "
+             "canonical forms over the cut extension and commutation of the operators with order embeddings; also as equality of "
+             "admitted sets for arbitrary objects (spec_*_mem). Markers - commutativity, associativity, idempotence, absorption, "
+             "distributivity up to equivalence for every fuel (corollaries of C02). Every law is also evaluated with the real == / "
+             "evaluate() on triples from the order-type grid, random reachable specifiers and marker pools, and the results are "
+             "compared structurally with the model.",
+        technique="Lean 4 proof (laws as object equalities / up to meaning) + law evaluation on the implementation over exhaustive/random triples",
+        design_ref="0.2, 6/C14"),
     "C15": dict(
         text="PARTIAL proof. Lean: flatten_nodup / mkMulti_nodup / mkUnion_nodup (constructors never keep equal children), "
              "multiOf_exit / unionOfList_exit (of() returns Empty/Any, a member of its final list, or the constructor on a final "
